@@ -18,6 +18,11 @@ func C09(r *ev.Run) {
 		Report(r, b, live.Viols)
 		Account(r, b, live.Cnt)
 		SampleRun(r, b, "directed scenario "+b.Spec.Profile)
+		live = &mon.Live{Silent: 1, FromStart: true}
+		b = DirectedPrimaryWaitsAfterRecovery(live)
+		Report(r, b, live.Viols)
+		Account(r, b, live.Cnt)
+		SampleRun(r, b, "directed scenario "+b.Spec.Profile)
 		live = &mon.Live{AsyncPrefix: true}
 		b = DirectedCommitSplit(live)
 		Report(r, b, live.Viols)
